@@ -20,7 +20,9 @@ TAG = "%s-r2-%s" % (pid, k) if ROUND2 else "%s-%s" % (pid, k)
 SEED = os.path.join(WT, "SEED")
 patch = os.path.join(SEED, "patch%s.diff" % k)
 demo = None
-for ext in (".c", ".cpp", ".sh"):
+if os.path.exists(os.path.join(SEED, "cross%s.sh" % k)):
+    demo = os.path.join(SEED, "cross%s.sh" % k)       # C18: the demonstration is the cross-configuration script
+for ext in ((".c", ".cpp", ".sh") if demo is None else ()):
     if os.path.exists(os.path.join(SEED, "demo%s%s" % (k, ext))):
         demo = os.path.join(SEED, "demo%s%s" % (k, ext))
 def sh(cmd, **kw):
@@ -160,7 +162,10 @@ if tests_ok and demo_ok:
     d = "/verif/seeded/%s" % TAG
     os.makedirs(d, exist_ok=True)
     shutil.copy(patch, os.path.join(d, "patch.diff"))
-    shutil.copy(demo, os.path.join(d, os.path.basename(demo).replace("demo%s" % k, "demo")))
+    shutil.copy(demo, os.path.join(d, os.path.basename(demo).replace("demo%s" % k, "demo").replace("cross%s" % k, "cross")))
+    for extra in ("demo%s.c" % k, "demo%s.cpp" % k):
+        if os.path.exists(os.path.join(SEED, extra)) and os.path.join(SEED, extra) != demo:
+            shutil.copy(os.path.join(SEED, extra), os.path.join(d, extra))
     old = {}
     mp = os.path.join(d, "meta.json")
     if os.path.exists(mp):
